@@ -98,6 +98,9 @@ class Check:
             self.tier = 'quick'
         self.seed = int(os.environ.get('VERIF_SEED', '0') or 0)
         self.rng = random.Random(self.seed * 1000003 + sum(map(ord, pid)))
+        # the library's own randomised routine (Welzl circumscribing circle) draws from the GLOBAL generator: seed it, so that
+        # every run of a check is a function of VERIF_SEED alone (a harness that studies seed-dependence re-seeds it itself)
+        random.seed(self.seed * 7919 + sum(map(ord, pid)))
         self.t0 = time.time()
         # VERIF_RUNTAG: a side run (seeded-mutant runs, concurrent development) that must not
         # disturb the registered run's scratch directory, evidence file or replays
@@ -389,6 +392,27 @@ class Check:
               f'evaluations={cov["evaluations"]} nontrivial={cov["distinct_nontrivial"]} '
               f'violations={len(self.violation_lines)} known={len(self.known_lines)} wall={ev["wall_s"]}s', flush=True)
         sys.exit(1 if self.violation_lines else 0)
+
+
+class _CallTimeout(Exception):
+    pass
+
+
+def guarded_alarm(fn, secs=5):
+    """guarded(), with a wall-clock limit on the implementation call: a call that does not return is ('Err', 'Timeout')"""
+    import signal
+
+    def _h(*_a):
+        raise _CallTimeout()
+    old = signal.signal(signal.SIGALRM, _h)
+    signal.alarm(secs)
+    try:
+        return guarded(fn)
+    except _CallTimeout:
+        return ('Err', 'Timeout')
+    finally:
+        signal.alarm(0)
+        signal.signal(signal.SIGALRM, old)
 
 
 def guarded(fn):
